@@ -117,7 +117,9 @@ where
 
     let samples = record.samples().map_err(WriteError::Io)?;
 
-    if !samples.is_empty() {
+    // A record without FORMAT keys has no genotype fields, whatever the number of samples in the
+    // file (e.g., a sites-only record read from BCF).
+    if !samples.is_empty() && samples.column_names(header).next().is_some() {
         write_separator(writer)?;
         write_samples(writer, header, samples).map_err(WriteError::InvalidSamples)?;
     }
